@@ -3,6 +3,7 @@ package main
 import (
 	"crypto/sha256"
 	"fmt"
+	"sort"
 	"strings"
 )
 
@@ -124,6 +125,41 @@ func (c *Ctx) entropyClasses(n int, each func(class string, e []byte)) {
 	}
 }
 
+// extremeWordEntropies yields, for language li and size n, entropies whose words are the extreme
+// words of the (canonical) list: the longest by bytes and by code points everywhere (the longest
+// sentence the language can produce — a buffer bound or length-based shortcut shows only here), a mix
+// of the six longest, and the shortest everywhere.  The last word carries the checksum and is whatever
+// it must be.
+func (c *Ctx) extremeWordEntropies(li, n int, each func(class string, e []byte)) {
+	words := c.canonWords(int64(langVals[li]))
+	by := func(less func(a, b string) bool) []int {
+		idx := make([]int, 2048)
+		for i := range idx {
+			idx[i] = i
+		}
+		sort.SliceStable(idx, func(a, b int) bool { return less(words[idx[a]], words[idx[b]]) })
+		return idx
+	}
+	longB := by(func(a, b string) bool { return len(a) > len(b) })
+	longR := by(func(a, b string) bool { return len([]rune(a)) > len([]rune(b)) })
+	short := by(func(a, b string) bool { return len(a) < len(b) })
+	groups := n * 8 / 11 // whole groups inside the entropy; the rest of the bits belong to the last word
+	fill := func(pick func(p int) int) []byte {
+		e := make([]byte, n)
+		for i := range e {
+			e[i] = 0xff
+		}
+		for p := 0; p < groups; p++ {
+			setGroup(e, p, pick(p))
+		}
+		return e
+	}
+	each("longest-words:bytes", fill(func(int) int { return longB[0] }))
+	each("longest-words:runes", fill(func(int) int { return longR[0] }))
+	each("longest-words:mix", fill(func(int) int { return longB[c.rng.Intn(6)] }))
+	each("shortest-words", fill(func(int) int { return short[0] }))
+}
+
 // ---- C01 ---------------------------------------------------------------------------------
 
 func init() { props["C01"] = propC01 }
@@ -142,6 +178,7 @@ func propC01(c *Ctx) {
 					r.sample(fmt.Sprintf("enc %s %s -> %s", langNames[li], hx(e), impl))
 				}
 			})
+			c.extremeWordEntropies(li, n, func(class string, e []byte) { c.enc(class, l, e) })
 		}
 	}
 	// every value of the first digest byte, per width
